@@ -17,15 +17,15 @@ def build_obs(tier, tables):
 def run(tier, seed):
     return run_with(
         "C08", tier, seed, build_obs, needs_lexer=True, functions=FUNCS,
-        bounds="the scanner's process-global state (start condition, scratch buffer, source stack, include stack) after cfg_scan_fp_end()+cfg_scan_fp_begin() - exactly what cfg_parse_fp() runs between two parses - from every start condition x scratch buffer allocated (any fill) or not x include depth 0/1/3; plus every failure exit of cfg_lexer_include() at depth 0/1/9/10",
+        bounds="the scanner's process-global state (start condition, scratch buffer, source stack, include stack, and every scalar file-scope variable lexer.l defines - list regenerated from the source on each run; integers arbitrary, pointers clear or naming one of the parse's sources) after cfg_scan_fp_end()+cfg_scan_fp_begin() - exactly what cfg_parse_fp() runs between two parses - from every start condition x scratch buffer allocated (any fill) or not x include depth 0/1/3; plus every failure exit of cfg_lexer_include() at depth 0/1/9/10",
         assumptions=[
             "the scanner globals are the only cross-parse state of the library besides errno (C04 shows the conversions do not depend on errno); if every parse starts from the fresh globals its outcome is a function of its input and context (paper argument)",
             "flex's own buffer-stack implementation is replaced by the flattened scanner's source stack; cfg_yylex_destroy() is not covered",
-            "known finding: include levels left open by an aborted parse survive (see known_findings.txt); re-entrant parses from callbacks and threads are outside the claim",
+            "re-entrant parses from callbacks and threads are outside the claim; the defects this lemma found (include levels and the read-failure flag surviving an aborted parse) are repaired, see the fixed: entries in known_findings.txt",
         ])
 
 
 MANIFEST = {
     "text": "From every scanner state in which a parse can stop (any start condition, scratch buffer allocated or not, include depth 0-3) the real end-of-parse/begin-of-parse sequence is executed and the globals are compared with their fresh-process values; failing includes are shown to leave the include stack untouched.",
-    "note": "State-reset lemma on the flattened scanner; one recorded finding (include depth after an aborted parse).",
+    "note": "State-reset lemma on the flattened scanner over all scanner globals found in lexer.l.",
 }
